@@ -8,7 +8,7 @@ use crate::refs::crypto;
 
 pub const REALM: &str = "example.org";
 
-#[derive(Clone, Copy, Debug, PartialEq, Eq, Hash)]
+#[derive(Clone, Copy, Debug, PartialEq, Eq, Hash, serde::Serialize, serde::Deserialize)]
 pub enum RClass {
     Success,
     Error(u16),
@@ -16,7 +16,7 @@ pub enum RClass {
     Request,
 }
 
-#[derive(Clone, Copy, Debug, PartialEq, Eq, Hash)]
+#[derive(Clone, Copy, Debug, PartialEq, Eq, Hash, serde::Serialize, serde::Deserialize)]
 pub enum RMac {
     None,
     Mi,
@@ -28,7 +28,7 @@ pub enum RMac {
     ShaOtherPass,
 }
 
-#[derive(Clone, Copy, Debug, PartialEq, Eq, Hash)]
+#[derive(Clone, Copy, Debug, PartialEq, Eq, Hash, serde::Serialize, serde::Deserialize)]
 pub enum RFp {
     Absent,
     Valid,
@@ -37,7 +37,7 @@ pub enum RFp {
     MisplacedWrongLen,
 }
 
-#[derive(Clone, Copy, Debug, PartialEq, Eq, Hash)]
+#[derive(Clone, Copy, Debug, PartialEq, Eq, Hash, serde::Serialize, serde::Deserialize)]
 pub enum NonceKind {
     Absent,
     Plain(u8),
@@ -45,7 +45,7 @@ pub enum NonceKind {
     Cookie(bool, bool, u8),
 }
 
-#[derive(Clone, Copy, Debug, PartialEq, Eq, Hash)]
+#[derive(Clone, Copy, Debug, PartialEq, Eq, Hash, serde::Serialize, serde::Deserialize)]
 pub enum PasKind {
     Absent,
     Md5,
@@ -55,14 +55,14 @@ pub enum PasKind {
     Unsupported,
 }
 
-#[derive(Clone, Copy, Debug, PartialEq, Eq, Hash)]
+#[derive(Clone, Copy, Debug, PartialEq, Eq, Hash, serde::Serialize, serde::Deserialize)]
 pub struct Chal {
     pub realm: bool,
     pub nonce: NonceKind,
     pub pas: PasKind,
 }
 
-#[derive(Clone, Copy, Debug, PartialEq, Eq, Hash)]
+#[derive(Clone, Copy, Debug, PartialEq, Eq, Hash, serde::Serialize, serde::Deserialize)]
 pub struct Reply {
     pub class: RClass,
     pub mac: RMac,
